@@ -407,9 +407,51 @@ def d3_maps(prog, rep):
             okg = any(g[0] == 'cmp' and g[1] == 'Lt' and g[2] == col and g[3] == ('field', me, 2, 'usize') and g[4] for g in gs)
             ok = okv and okr and okg
         (rep.ok if ok else rep.viol)('map-signature', key, 'v[i] = self[i][col] for i in 0..nrows, col < ncols asserted' if ok else 'column extraction does not copy self[i][col] for every row under a bounds assert', site_of(f.body))
+    # ---- Matrix::diag: min(nrows, ncols) entries data[i*ncols + i]
+    f = prog.func(M + '::diag')
+    key = 'map-signature:%s::diag' % M
+    if f is None:
+        rep.viol('map-signature', key, 'Matrix::diag disappeared')
+    else:
+        rep.touch(f.body.key)
+        me = ('arg', 1, f.names.get(1))
+        R, C = ('field', me, 1, 'usize'), ('field', me, 2, 'usize')
+        data = ('field', me, 0, 'linalg::array::vec::Vector')
+
+        def is_min(t):
+            return tag(t) == 'call' and short(t[1]) == 'min' and set(t[2]) == {R, C}
+        pushes = [c for c in f.calls() if c.path and short(c.path) == 'push']
+        steps = [c for c in f.calls() if c.path and short(c.path) == 'step_by']
+        if len(pushes) == 1 and tag(pushes[0].args[1]) == 'index':
+            v = pushes[0].args[1]
+            loops = [li for li in f.loop_info() if li['item'] is not None and pushes[0].bb in li['blocks']]
+            ok = False
+            why = 'no counting loop'
+            if len(loops) == 1:
+                i = loops[0]['item']
+                rng = i[2]
+                okr = tag(rng) == 'range' and tag(rng[1]) == 'const' and rng[1][2] == 0 and is_min(rng[2])
+                oki = strip_casts(v[1]) == data and peq(poly(v[2]), padd(pmul(poly(i), poly(C)), poly(i)))
+                ok = okr and oki
+                why = 'range %s, element %s' % (show(rng)[:40], show(v)[:60])
+            (rep.ok if ok else rep.viol)('map-signature', key, 'diag pushes data[i*ncols + i] for i in 0..min(nrows, ncols)' if ok else
+                                         'diag does not enumerate data[i*ncols + i] over 0..min(nrows, ncols) (%s)' % why, site_of(f.body))
+        elif len(steps) == 1:
+            st = steps[0]
+            stride_ok = peq(poly(st.args[1]), padd(poly(C), {(): 1}))
+            takes = [c for c in f.calls() if c.path and short(c.path) == 'take' and is_min(c.args[1])]
+            if stride_ok and takes:
+                rep.ok('map-signature', key, 'diag walks the buffer with stride ncols + 1 and takes min(nrows, ncols) entries')
+            elif not stride_ok:
+                rep.viol('map-signature', key, 'diag walks the buffer with stride %s, not ncols + 1' % show(st.args[1])[:40], site_of(f.body))
+            else:
+                rep.viol('map-signature', key, 'diag walks the row-major buffer with stride ncols + 1 but does not stop after min(nrows, ncols) entries: a tall matrix '
+                         '(nrows >= ncols + 2) yields extra elements, e.g. 4x2 [1..8] gives [1, 4, 7]', site_of(f.body))
+        else:
+            rep.undecided('map-signature', key, 'diag idiom not recognised', site_of(f.body), proof=False)
     for name in ('hcat', 'vcat', 'hrepeat', 'vrepeat'):
         _check_cat(prog, rep, name)
-    rep.floor('map-signature', 9, 'transpose, 2 layout conversions, t, get_col_as_vector, hcat, vcat, hrepeat, vrepeat')
+    rep.floor('map-signature', 10, 'transpose, 2 layout conversions, t, get_col_as_vector, diag, hcat, vcat, hrepeat, vrepeat')
 
 
 def _check_cat(prog, rep, name):
@@ -867,7 +909,7 @@ def d7_predicates(prog, rep):
                 a, b2 = reads
                 sa, sb = ix.split_stride(poly(a[2])), ix.split_stride(poly(b2[2]))
                 if sa and sb and a[1] == b2[1]:
-                    ok = peq(sa[1], sb[2]) and peq(sa[2], sb[1]) and any(tag(z) == 'bin' and z[1] == 'Sub' and z[4] == 'f64' for z in subterms(cn))
+                    ok = peq(sa[1], sb[2]) and peq(sa[2], sb[1]) and (any(tag(z) == 'bin' and z[1] == 'Sub' and z[4] == 'f64' for z in subterms(cn)) or (tag(cn) == 'bin' and cn[1] in ('Ne', 'Eq') and {cn[2], cn[3]} == {a, b2}))
                     why = '%s vs %s' % (pshow(poly(a[2]), show)[:60], pshow(poly(b2[2]), show)[:60])
                     if ok:
                         break
